@@ -85,9 +85,18 @@ def rebuild(s3, *, point_fn=None, residue_fn=None, keep=None, atom_keep=None, at
 
         label, auth = ren_label(r.label), ren_auth(r.auth)
         if ident_fn is not None:
-            ch, num = ident_fn(ri, r.chain, r.number)
+            new = ident_fn(ri, r.chain, r.number)
+            ch, num = new[0], new[1]
             label = ResidueLabel(ch, num, r.label.name) if r.label is not None else None
-            auth = ResidueAuth(ch, num, r.auth.icode, r.auth.name) if r.auth is not None else None
+            if len(new) == 3:
+                # (chain, number, insertion code): only the author identity can carry the code, and label numbers
+                # (label_seq_id) are unique per residue in real files, so the rebuilt residue is PDB-like: author
+                # identity only
+                nm = r.auth.name if r.auth is not None else r.label.name
+                auth = ResidueAuth(ch, num, new[2], nm)
+                label = None
+            else:
+                auth = ResidueAuth(ch, num, r.auth.icode, r.auth.name) if r.auth is not None else None
         idxs = list(range(len(r.atoms)))
         if atom_keep is not None:
             idxs = [k for k in idxs if atom_keep(ri, k)]
@@ -169,7 +178,11 @@ def st_mini(files, max_extra=4):
         for _ in range(draw(st.sampled_from([0, 0, 0, 1, 1, 2]))):
             drops.append([draw(st.integers(0, len(idx) - 1)),
                           draw(st.sampled_from(["C1'", "C1'", "N9", "N1", "N7", "N3", "C4", "O2", "O2'", "C2", "N6", "O6", "N4", "O4", "P", "OP1", "C8", "C6"]))])
-        return {"kind": "mini", "file": fn, "residues": idx, "moves": moves, "drop": drops}
+        # identities: as in the file, or rewritten so that neighbours share a number and differ by insertion code
+        # (20, 20A, 20B as in tRNA numbering), numbers descend in file order, or the chains appear in reverse
+        # alphabetical order - shapes the corpus hardly contains
+        relabel = draw(st.sampled_from([None, None, None, "icode-runs-2", "icode-runs-3", "descending", "chains-reversed"]))
+        return {"kind": "mini", "file": fn, "residues": idx, "moves": moves, "drop": drops, "relabel": relabel}
 
     return build()
 
@@ -198,4 +211,25 @@ def build_mini(case):
     def ak(ri, k):
         return s3.residues[ri].atoms[k].name not in dropped.get(ri, ())
 
-    return rebuild(s3, keep=set(idx), point_fn=pf, atom_keep=ak if dropped else None)
+    return rebuild(s3, keep=set(idx), point_fn=pf, atom_keep=ak if dropped else None, ident_fn=mini_ident_fn(case.get("relabel"), idx))
+
+
+def mini_ident_fn(relabel, idx):
+    if not relabel:
+        return None
+    slot = {ri: s for s, ri in enumerate(sorted(idx))}
+    n = len(idx)
+
+    def fn(ri, chain, number):
+        s = slot[ri]
+        if relabel.startswith("icode-runs-"):
+            r = int(relabel[-1])
+            return ("A", 20 + s // r, None if s % r == 0 else chr(ord("A") + s % r - 1))
+        if relabel == "descending":
+            return ("A", 100 - 3 * s, None)
+        if relabel == "chains-reversed":
+            half = (n + 1) // 2
+            return ("T" if s < half else "P", 1 + s, None)
+        raise ValueError(relabel)
+
+    return fn
